@@ -204,6 +204,41 @@ func (p *ParametersLiteral) UnmarshalBinary(data []byte) (err error) {
 	return json.Unmarshal(data, p)
 }
 
+// UnmarshalJSON reads a JSON representation on the target ParametersLiteral struct.
+// The distributions Xs and Xe are interface values and cannot be decoded by the
+// [encoding/json] package on its own (see also [rlwe.ParametersLiteral.UnmarshalJSON]).
+func (p *ParametersLiteral) UnmarshalJSON(data []byte) (err error) {
+
+	// Same fields, no methods (no recursion); Xs and Xe are shadowed by the maps below.
+	type parametersLiteral ParametersLiteral
+
+	aux := struct {
+		Xs map[string]interface{}
+		Xe map[string]interface{}
+		*parametersLiteral
+	}{parametersLiteral: (*parametersLiteral)(p)}
+
+	if err = json.Unmarshal(data, &aux); err != nil {
+		return
+	}
+
+	p.Xs, p.Xe = nil, nil
+
+	if aux.Xs != nil {
+		if p.Xs, err = ring.ParametersFromMap(aux.Xs); err != nil {
+			return
+		}
+	}
+
+	if aux.Xe != nil {
+		if p.Xe, err = ring.ParametersFromMap(aux.Xe); err != nil {
+			return
+		}
+	}
+
+	return
+}
+
 // GetLogN returns the LogN field of the target [ParametersLiteral].
 // The default value DefaultLogN is returned if the field is nil.
 func (p ParametersLiteral) GetLogN() (LogN int) {
